@@ -47,9 +47,11 @@ Proof.
   - intros s0 k r _. apply NT_of_Mono; [apply Mono_unremove | |]; unfold unremove; destruct (rremove (getr s0 r));
       try reflexivity; cbn [clock timers setr set_recs]; [apply clock_stop_timer | apply length_timers_stop_timer].
   - intros s0 r y (K & L & D & _). apply NT_of_Mono; [apply Mono_setr; repeat split; auto | reflexivity | reflexivity].
-  - intros s0 r. apply NT_of_Mono; [apply Mono_stop_timer | apply clock_stop_timer | apply length_timers_stop_timer].
-  - intros s0 r. apply NT_of_Mono; [apply Mono_setr; repeat split | reflexivity | reflexivity].
-  - intros s0 k. apply NT_of_Mono; [mext | reflexivity | reflexivity].
+  - intros s0 k r _. apply (remove_now_parts NT NT_trans).
+    + intros s1 oi. apply NT_of_Mono; [apply Mono_cancel_inst | apply cancel_inst_frame|]. destruct (cancel_inst_frame s1 oi) as (_ & _ & C & _). now rewrite C.
+    + intros s1 r1. apply NT_of_Mono; [apply Mono_stop_timer | apply clock_stop_timer | apply length_timers_stop_timer].
+    + intros s1 r1. apply NT_of_Mono; [apply Mono_setr; repeat split | reflexivity | reflexivity].
+    + intros s1 k1. apply NT_of_Mono; [mext | reflexivity | reflexivity].
   - (* a delayed removal is armed *)
     intros s0 k r _ _. constructor.
     + eapply Mono_trans; [apply Mono_timers_app|]. apply Mono_setr. repeat split.
@@ -196,10 +198,13 @@ Proof.
     + intros q. rewrite failed_setr; [now rewrite getr_stop_timer | rewrite getr_stop_timer; reflexivity | rewrite getr_stop_timer; reflexivity].
   - intros s0 r y (K & L & D & _ & S & X & _). apply P1_same; [apply Mono_setr; repeat split; auto | reflexivity | reflexivity|].
     intros q. now apply failed_setr.
-  - intros s0 r. apply P1_same; [apply Mono_stop_timer | apply cblog_stop_timer | |]; [destruct (stop_timer_frame s0 (rretry (getr s0 r))) as (_ & _ & T & _); now rewrite T|].
-    intros q. now rewrite getr_stop_timer.
-  - intros s0 r. apply P1_same; [apply Mono_setr; repeat split | reflexivity | reflexivity|]. intros q. now apply failed_setr.
-  - intros s0 k. p1same. mext.
+  - intros s0 k r _. apply (remove_now_parts P1 P1_trans).
+    + intros s1 oi. apply P1_same; [apply Mono_cancel_inst | apply cblog_cancel_inst | apply cancel_inst_frame|].
+      intros q. unfold getr. destruct (cancel_inst_frame s1 oi) as (_ & C & _). now rewrite C.
+    + intros s1 r1. apply P1_same; [apply Mono_stop_timer | apply cblog_stop_timer | |]; [destruct (stop_timer_frame s1 (rretry (getr s1 r1))) as (_ & _ & T & _); now rewrite T|].
+      intros q. now rewrite getr_stop_timer.
+    + intros s1 r1. apply P1_same; [apply Mono_setr; repeat split | reflexivity | reflexivity|]. intros q. now apply failed_setr.
+    + intros s1 k1. p1same. mext.
   - intros s0 k r _ _. apply P1_same; [eapply Mono_trans; [apply Mono_timers_app | apply Mono_setr; repeat split] | reflexivity | reflexivity|].
     intros q. rewrite failed_setr; reflexivity.
   - intros s0 i x p H. apply P1_same; [apply (Mono_seti s0 i x _ H); repeat split; auto | reflexivity | rewrite insts_seti; apply length_set_nth | intros; reflexivity].
